@@ -12,7 +12,7 @@ const IDENTS: &[&str] = &[
     "bar", "baz", "Node", "Leaf", "Tree", "Pallet", "Call", "Event", "Error", "Balance",
     "AccountId", "Hash", "Vec", "Option", "Box", "core", "alloc", "std", "frame_system",
     "pallet_balances", "sp_runtime", "value", "index", "data", "next", "left", "right", "Some",
-    "None", "Ok", "Err", "A0", "z9_",
+    "None", "Ok", "Err", "A0", "z9_", "Lsb0", "Msb0", "r#mod", "PhantomData", "Compact",
 ];
 
 const ODD: &[&str] = &[
@@ -53,6 +53,12 @@ const TYPE_NAMES: &[&str] = &[
     "<T as Config>::AccountId",
     "PhantomData<T>",
     "Compact<u128>",
+    "& 'static str",
+    "&'static str",
+    "& mut T",
+    "Vec < u8 >",
+    ":: core :: primitive :: u8",
+    "[u8 ; 32]",
 ];
 
 const DOCS: &[&str] = &[
